@@ -18,9 +18,37 @@ KindPatterns(n) == { Uniform(n, kd) : kd \in Kinds }
 SubPatterns(n) == { Uniform(n, "none"), Uniform(n, "num"), FirstOnly(n, "num", "none"),
                     FirstOnly(n, "expr", "none"), FirstOnly(n, "expruk", "none"),
                     FirstOnly(n, "expr", "num") }
+\* parameter-key values: g bound 61, substituted 67, constants object 71; feedratio substituted 73,
+\* constants object 79.  Largest number: 3 * 17 * 53 * 59 * 7^3 < 5.5 * 10^7.
 Mk(b, incl, kinds, subs, cstr, comp) ==
     [builder |-> b, incl |-> incl, kinds |-> kinds, subs |-> subs, cstr |-> cstr, comp |-> comp,
-     subvals |-> SubV, aval |-> AV, tval |-> TV]
+     subvals |-> SubV, aval |-> AV, tval |-> TV,
+     gsub |-> "none", fsub |-> "none", consts |-> <<>>, symorder |-> <<>>,
+     gval |-> Q(61), gsubval |-> Q(67), gconst |-> Q(71), fsubval |-> Q(73), fconst |-> Q(79)]
+
+\* parameter keys: substitution x constants object (get_odesys)
+ConstSets == { <<>>, <<"g">>, <<"feedratio">>, <<"g", "feedratio">> }
+PkKinds(n) == { Uniform(n, "ma_pk"), Alternate(n, "ma_pk", "ma_uk"), Alternate(n, "str", "ma_pk"),
+                Uniform(n, "ma_num") }
+CfgConst(n) == { [Mk("get_odesys", incl, kinds, subs, cstr, FALSE)
+                    EXCEPT !.gsub = gs, !.fsub = fs, !.consts = cs] :
+                   incl \in BOOLEAN, kinds \in PkKinds(n),
+                   subs \in { Uniform(n, "none"), FirstOnly(n, "num", "none") },
+                   cstr \in BOOLEAN, gs \in {"none", "num", "expr"}, fs \in {"none", "num"}, cs \in ConstSets }
+                \cup { Mk("create_odesys", FALSE, kinds, Uniform(n, "none"), cstr, FALSE) :
+                         kinds \in { Uniform(n, "ma_pk"), Alternate(n, "str", "ma_pk") }, cstr \in BOOLEAN }
+\* a smaller family for the wider systems of the thorough tier
+CfgConstFew(n) == { cf \in CfgConst(n) : cf.incl = FALSE /\ cf.kinds \in { Uniform(n, "ma_pk"), Alternate(n, "str", "ma_pk") }
+                                          /\ cf.subs = Uniform(n, "none") /\ cf.consts \in { <<>>, <<"g", "feedratio">> } }
+
+\* user-supplied concentration symbols for create_odesys, in system order and permuted
+Rev(sq) == [i \in 1..Len(sq) |-> sq[Len(sq) + 1 - i]]
+RotL(sq) == IF sq = <<>> THEN sq ELSE Tail(sq) \o <<Head(sq)>>
+SymOrders == { <<>>, subst, Rev(subst), RotL(subst) }
+CfgSym(n) == { [Mk("create_odesys", FALSE, kinds, subs, cstr, FALSE) EXCEPT !.symorder = so] :
+                 kinds \in { Uniform(n, "str"), Uniform(n, "ma_num"), Alternate(n, "ma_fk", "ma_pk") },
+                 subs \in { Uniform(n, "none"), FirstOnly(n, "num", "none") },
+                 cstr \in BOOLEAN, so \in SymOrders }
 
 \* every combination (Accepted filters)
 CfgAll(n) == { Mk(b, incl, kinds, subs, cstr, comp) :
